@@ -73,8 +73,12 @@ def rec_types(job):
     cfgkey, doc = job[:2]
     md = A.md_for(cfgkey) if len(job) < 3 or not job[2] else routed(cfgkey, job[2])
     act = md.get_active_rules()
+    want = []
+    if len(job) > 2 and job[2]:
+        wa = A.md_for(cfgkey).get_active_rules()
+        want = [f"{c}/{n}" for c in wa for n in wa[c]]
     toks = md.parse(doc)
-    return {"kind": "types", "active": [f"{c}/{n}" for c in act for n in act[c]],
+    return {"kind": "types", "want": want, "active": [f"{c}/{n}" for c in act for n in act[c]],
             "html": 1 if md.options.get("html") else 0, "idef": 1 if md.options.get("inline_definitions") else 0,
             "types": sorted(C.ascii_safe(x) for x in types_of(toks, set()))}
 
